@@ -11,7 +11,7 @@ RUN_FN = "run_c06"
 REGIONS = ("F13",)
 TRUSTED = [
     "Coq 8.16.1 kernel; vm_compute for generated cases; no native_compute",
-    "model: coq/Model/Linear.v (codons_*, keyed_*, sge_mutate, dsge_mutate, tree_cross_child), hand-written from the five representation modules; the stack representation's mapping is not modelled (its mutate / crossover are)",
+    "model: coq/Model/Linear.v (codons_*, keyed_*, sge_mutate, dsge_mutate, tree_cross_child), hand-written from the five representation modules; the stack representation's mutate / crossover are in Linear.v, its mapping in coq/Model/Stack.v (compared in C01 and C07, not here)",
     "correspondence harness: harness/props/c06.py, harness/props/rep_common.py, harness/drivers/reps.py: one shared recording random source; every operation is re-run in the model on the observed inputs and the answers it consumed",
 ]
 RULE = ("case = hierarchy x representation (tree, GE, SGE, dSGE, stack; gene lengths 1..400) x a sequence of create / map / mutate / crossover operations over a growing registry of genotypes; every operation becomes one "
